@@ -213,7 +213,13 @@ def gen_op(rng, m, cnt, names):
     return (kind, key, rng.choice(vtags.ALL), rng.sample(vtags.ALL, rng.randint(0, 2)))
   if kind in ('assign', 'copy_with'):
     ks = rng.sample(sorted(m.named_ok), min(len(m.named_ok), rng.randint(0, 2))) if m.named_ok else []
-    return (kind, {k: Sentinel(next(cnt)) for k in ks})
+    d = {k: Sentinel(next(cnt)) for k in ks}
+    if kind == 'assign' and ks and rng.random() < 0.35:
+      # accepted arguments first, then one the callable rejects: the call raises half-way;
+      # whatever it did to the arguments and what it logged must still agree
+      bad = next((p.name for p in m.sig.parameters.values() if p.kind == p.VAR_POSITIONAL), None)
+      d[bad or ('no_such_parameter' if not m.has_vk else '0bad name')] = Sentinel(next(cnt))
+    return (kind, d)
   return (kind,)
 
 
@@ -369,6 +375,7 @@ def run_threads(spec, acc):
       results = [None] * nthreads
       seeds = [rng.getrandbits(32) for _ in range(nthreads)]
       barrier = threading.Barrier(nthreads)
+      materializer = rng.random() < 0.6
 
       def body(ti):
         import random
@@ -376,6 +383,7 @@ def run_threads(spec, acc):
         cfg = fdl.Config(sigs.g_abc_d_va_vk)
         ids = []
         lost = [0]
+        wrong_loc = [0]
         barrier.wait()
         suspended_added = 0
         for j in range(150):
@@ -385,9 +393,18 @@ def run_threads(spec, acc):
               cfg.a = j
               after = sum(len(v) for v in cfg.__argument_history__.values())
               suspended_added += after - before
+          elif ti == 0 and materializer and r.random() < 0.5:
+            # this thread materializes defaults of ITS OWN configurations in between
+            from fiddle._src import materialize as _mat
+            _mat.materialize_defaults(fdl.Config(kinds.tagged_fn, c=fdl.Config(kinds.two)))
           else:
             k = r.choice(['a', 'b', 'c', 'extra'])
+            ln = sys._getframe().f_lineno + 1     # pylint: disable=protected-access
             setattr(cfg, k, j)
+            loc = cfg.__argument_history__[k][-1].location
+            if loc is None or loc.line_number != ln or not loc.filename.endswith('vf/checks/c16.py'):
+              wrong_loc[0] += 1
+              wrong_loc.append(f'{getattr(loc, "filename", None)}:{getattr(loc, "line_number", None)} (expected line {ln})')
             after = sum(len(v) for v in cfg.__argument_history__.values())
             if after != before + 1:
               lost[0] += 1        # a tracked edit of THIS thread must be logged
@@ -396,7 +413,7 @@ def run_threads(spec, acc):
           ids_now = sorted(e.sequence_id for lst in cfg.__argument_history__.values() for e in lst)
         # program order = order of appends; collect per key in list order and merge by id
         per_key = {k: [e.sequence_id for e in lst] for k, lst in cfg.__argument_history__.items()}
-        results[ti] = (per_key, suspended_added, history.tracking_enabled(), lost[0])
+        results[ti] = (per_key, suspended_added, history.tracking_enabled(), lost[0], wrong_loc)
 
       ts = [threading.Thread(target=body, args=(i,)) for i in range(nthreads)]
       for t in ts:
@@ -405,7 +422,12 @@ def run_threads(spec, acc):
         t.join()
       acc.obs('thread_runs')
       all_ids = []
-      for ti, (per_key, susp, enabled, lost_n) in enumerate(results):
+      for ti, (per_key, susp, enabled, lost_n, wrong) in enumerate(results):
+        acc.obs('thread_edit_locations_checked', 100)
+        if wrong[0]:
+          acc.violation('thread:edit-attributed-to-wrong-location',
+                        f'thread {ti}: {wrong[0]} edit(s), e.g. {wrong[1]}',
+                        {'threads': nthreads, 'materializer_thread': materializer})
         if lost_n:
           acc.violation('thread:tracked-edit-not-logged', f'thread {ti}: {lost_n} tracked edit(s) added '
                         'no history entry (another thread had tracking suspended?)', {'threads': nthreads})
